@@ -177,6 +177,80 @@ theorem colsOK_of_oinv (es : WEdges) (L : Nat) (M : List Row) (h : OInv es L M) 
           · cases hy
           · split at hy <;> simp only [mcell] at hy <;> cases hy
 
+/-- every operation of the table of a matrix with `OInv`: an out-of-band answer / padding, a row-0 operation, or a cell of an
+existing node row with `CellOK` -/
+theorem opAtS_spec (es : WEdges) (L : Nat) (M : List Row) (h : OInv es L M) (i j : Nat) :
+    opAtS M i j = .d none ∨ opAtS M i j = .i none ∨ opAtS M i j = .m none ∨ (i = 0 ∧ opAtS M i j = .y 0 j) ∨
+    ∃ v, i = v + 1 ∧ v + 1 < M.length ∧ CellOK es L v j (opAtS M i j) := by
+  unfold opAtS getP
+  cases i with
+  | zero =>
+    obtain ⟨cs, e, h1, h2, h3, h4⟩ := h.r0
+    simp only [h1, Option.getD_some]
+    split
+    · simp only [Nat.sub_zero]
+      rcases Nat.lt_or_ge j cs.length with hjl | hjl
+      · simp only [List.getD, List.getElem?_eq_getElem hjl, Option.getD_some]
+        rcases h4 j cs[j] (List.getElem?_eq_getElem hjl) with ⟨h5, _⟩ | h5 | h5
+        · exact Or.inr (Or.inr (Or.inl h5))
+        · exact Or.inr (Or.inl h5)
+        · first | exact Or.inr (Or.inr (Or.inr (Or.inl ⟨rfl, h5⟩))) | exact Or.inr (Or.inr (Or.inr (Or.inl ⟨trivial, h5⟩)))
+      · simp only [List.getD, List.getElem?_eq_none hjl, Option.getD_none, mcell]
+        first | exact Or.inr (Or.inr (Or.inl rfl)) | simp
+    · split
+      · first | exact Or.inl rfl | simp
+      · split
+        · first | exact Or.inr (Or.inl rfl) | simp
+        · first | exact Or.inr (Or.inr (Or.inl rfl)) | simp
+  | succ v =>
+    cases hM : M[v + 1]? with
+    | none =>
+      simp only [Option.getD_none, List.isEmpty_nil, Bool.or_true, Bool.not_true, Bool.false_eq_true, if_false]
+      split
+      · first | exact Or.inl rfl | simp
+      · split
+        · first | exact Or.inr (Or.inl rfl) | simp
+        · first | exact Or.inr (Or.inr (Or.inl rfl)) | simp
+    | some r =>
+      obtain ⟨cs, s, e⟩ := r
+      obtain ⟨hs, hok⟩ := h.rows v cs s e hM
+      subst hs
+      simp only [Option.getD_some]
+      split
+      · simp only [Nat.sub_zero]
+        rcases Nat.lt_or_ge j cs.length with hjl | hjl
+        · simp only [List.getD, List.getElem?_eq_getElem hjl, Option.getD_some]
+          have := hok j cs[j] (List.getElem?_eq_getElem hjl)
+          simp only [Nat.zero_add] at this
+          exact Or.inr (Or.inr (Or.inr (Or.inr ⟨v, rfl, lt_of_getElem? hM, this⟩)))
+        · simp only [List.getD, List.getElem?_eq_none hjl, Option.getD_none, mcell]
+          first | exact Or.inr (Or.inr (Or.inl rfl)) | simp
+      · split
+        · first | exact Or.inl rfl | simp
+        · split
+          · first | exact Or.inr (Or.inl rfl) | simp
+          · first | exact Or.inr (Or.inr (Or.inl rfl)) | simp
+
+theorem opAtS_y (es : WEdges) (L : Nat) (M : List Row) (h : OInv es L M) (i j c d : Nat) (hy : opAtS M i j = .y c d) : d = j := by
+  rcases opAtS_spec es L M h i j with e | e | e | ⟨_, e⟩ | ⟨v, _, _, e⟩
+  · rw [e] at hy; cases hy
+  · rw [e] at hy; cases hy
+  · rw [e] at hy; cases hy
+  · rw [e] at hy; cases hy; rfl
+  · exact (e.2.2 c d hy).2
+
+theorem opAtS_m_lt (es : WEdges) (L m : Nat) (M : List Row) (h : OInv es L M) (hlen : M.length = m + 1) (i j a p : Nat)
+    (hm : opAtS M i j = .m (some (a, p))) : p < m := by
+  rcases opAtS_spec es L M h i j with e | e | e | ⟨_, e⟩ | ⟨v, _, hv, e⟩
+  · rw [e] at hm; cases hm
+  · rw [e] at hm; cases hm
+  · rw [e] at hm; cases hm
+  · rw [e] at hm; cases hm
+  · rcases e.1 with e1 | e1 | ⟨_, e1⟩ | ⟨_, e1 | e1 | ⟨p', _, e1 | e1⟩⟩ | ⟨_, ⟨r, e1⟩ | ⟨_, c', d', e1⟩⟩ <;> rw [e1] at hm <;>
+      first
+        | (cases hm; omega)
+        | cases hm
+
 theorem add64_val {a b t : Nat} (h : Rs.add 64 a b = ok t) : t = a + b := by
   unfold Rs.add at h; split at h
   · simp only [Res.ok.injEq] at h; exact h.symm
@@ -332,6 +406,118 @@ theorem step_dag (sc : Sc) (xp xs yp ys : Int) (g g' : G) (q : List Nat) (t : BT
     generalize consuming (traceF (opAtS tb.matrix) ((tb.rows + 3) * (tb.cols + 3)) (tb.last + 1) tb.cols []) = k at h1 h2
     generalize (addAlignment g (traceF (opAtS tb.matrix) ((tb.rows + 3) * (tb.cols + 3)) (tb.last + 1) tb.cols []) q).labels.length = k2 at h1 ⊢
     omega
+
+open RbV.Thm.GenSrcPoaAdd in
+theorem seqOK_mono (n m : Nat) : ∀ (ops : List POp) (i i' : Nat), i ≤ i' → SeqOK n m i' ops → SeqOK n m i ops
+  | [], _, _, _, _ => trivial
+  | op :: r, i, i', hi, h => by
+    cases op with
+    | m pq =>
+      cases pq with
+      | none => simp only [SeqOK] at h ⊢; exact ⟨by omega, seqOK_mono n m r _ _ (by omega) h.2⟩
+      | some pq => obtain ⟨a, p⟩ := pq; simp only [SeqOK] at h ⊢; exact ⟨by omega, h.2.1, seqOK_mono n m r _ _ (by omega) h.2.2⟩
+    | d pq => simp only [SeqOK] at h ⊢; exact seqOK_mono n m r _ _ hi h
+    | i p => simp only [SeqOK] at h ⊢; exact ⟨by omega, seqOK_mono n m r _ _ (by omega) h.2⟩
+    | x r' => simp only [SeqOK] at h ⊢; exact seqOK_mono n m r _ _ hi h
+    | y a b => simp only [SeqOK] at h ⊢; exact h
+
+open RbV.Thm.GenSrcPoaAdd in
+/-- **column tracking**: the traceback over a column-monotone table whose `Yclip(_, d)` in column `j` has `d = j` and whose
+`Match(Some((_, p)))` name nodes `< m` emits an operation list that is valid for a query of length `n` (`SeqOK`): a consuming
+operation emitted in column `j` consumes position `j - 1` -/
+theorem traceF_seqOK (opAt : Nat → Nat → POp) (n m : Nat) (hcols : ColsOK opAt)
+    (hy : ∀ i j c d, opAt i j = .y c d → d = j) (hm : ∀ i j a p, opAt i j = .m (some (a, p)) → p < m) :
+    ∀ (f i j : Nat) (acc : List POp), j ≤ n → SeqOK n m j acc → SeqOK n m 0 (traceF opAt f i j acc) := by
+  intro f
+  induction f with
+  | zero => intro i j acc _ hs; simp only [traceF]; exact seqOK_mono n m acc 0 j (Nat.zero_le _) hs
+  | succ f ih =>
+    intro i j acc hj hs
+    by_cases hij : i = 0 ∧ j = 0
+    · obtain ⟨rfl, rfl⟩ := hij
+      simp only [traceF, Bool.and_self, decide_true, if_true]; exact hs
+    · rw [traceF_succ opAt f i j acc hij]
+      have hpos : ∀ op, opAt i j = op → opCost op = 1 → 0 < j := by
+        intro op hop hc
+        rcases Nat.eq_zero_or_pos j with h0 | h0
+        · subst h0
+          have := hcols.col0 i (by omega)
+          rw [hop] at this; omega
+        · exact h0
+      generalize hop : opAt i j = op
+      cases op with
+      | m pq =>
+        have hj0 := hpos _ hop rfl
+        cases pq with
+        | none =>
+          simp only [traceNextF]
+          exact ih 0 (j - 1) _ (by omega) (by simp only [SeqOK]; exact ⟨by omega, by rw [Nat.sub_add_cancel hj0]; exact hs⟩)
+        | some pq =>
+          obtain ⟨a, p⟩ := pq
+          simp only [traceNextF]
+          exact ih (a + 1) (j - 1) _ (by omega)
+            (by simp only [SeqOK]; exact ⟨by omega, hm i j a p hop, by rw [Nat.sub_add_cancel hj0]; exact hs⟩)
+      | d pq =>
+        cases pq with
+        | none => simp only [traceNextF]; exact ih (i - 1) j _ hj (by simp only [SeqOK]; exact hs)
+        | some pq => obtain ⟨a, p⟩ := pq; simp only [traceNextF]; exact ih (a + 1) j _ hj (by simp only [SeqOK]; exact hs)
+      | i p =>
+        have hj0 := hpos _ hop rfl
+        cases p with
+        | none =>
+          simp only [traceNextF]
+          exact ih i (j - 1) _ (by omega) (by simp only [SeqOK]; exact ⟨by omega, by rw [Nat.sub_add_cancel hj0]; exact hs⟩)
+        | some p =>
+          simp only [traceNextF]
+          exact ih (p + 1) (j - 1) _ (by omega) (by simp only [SeqOK]; exact ⟨by omega, by rw [Nat.sub_add_cancel hj0]; exact hs⟩)
+      | x r => simp only [traceNextF]; exact ih r j _ hj (by simp only [SeqOK]; exact hs)
+      | y c d =>
+        simp only [traceNextF]
+        have hc := hcols.yclip i j c d hop
+        have hd := hy i j c d hop
+        exact ih i c _ (by omega) (by simp only [SeqOK]; rw [hd]; exact hs)
+
+open RbV.Thm.GenSrcPoaAdd in
+/-- **no panic of the translated `add_alignment` on traceback-produced lists**: whatever table the translated `custom` returned and
+whatever list the translated `alignment` returned from it, the translated addition returns (the model's graph) — given room
+for the weight increments -/
+theorem step_add_total (sc : Sc) (xp xs yp ys : Int) (g : G) (q : List Nat) (t : BTable) (tb : Rs.Poa.Traceback)
+    (aln : Rs.Poa.Alignment) (hg : Dag g)
+    (hm : g.labels.length + 1 < 2 ^ 64) (hn : q.length + 1 < 2 ^ 64) (hq : 0 < q.length)
+    (hC : customTableC sc xp xs yp ys g.labels g.es q = some t)
+    (hcu : custom sc.w g sc.gap xp xs yp ys q = ok tb) (hal : Traceback_alignment tb = ok aln)
+    (hK : (aln.operations.length : Int) < 2147483647)
+    (hw : ∀ e ∈ g.es, -2147483648 ≤ e.2.2 ∧ e.2.2 + (aln.operations.length : Int) ≤ 2147483647) :
+    RbV.Gen.SrcPoaAdd.add_alignment g aln q = ok (addAlignment g aln.operations q) := by
+  have hG := graphOK_of_dag g hg
+  obtain ⟨tb', e, el, ec, er, hml, hO, _⟩ := custom_score_eq_model sc xp xs yp ys g.labels g.es q t hG hm hn hC
+  have hgg : (⟨g.labels, g.es⟩ : G) = g := rfl
+  rw [hgg, hcu] at e
+  simp only [Res.ok.injEq] at e
+  subst e
+  have hN : t.n = q.length := by
+    unfold customTableC at hC
+    simp only at hC
+    split at hC
+    · cases hC
+    · split at hC
+      · cases hC
+      · split at hC
+        · cases hC
+        · split at hC
+          · cases hC
+          · simp only [Option.some.injEq] at hC; rw [← hC]
+  have hOI := hO hq
+  have hops := alignment_partial tb aln hal
+  have hseq : SeqOK q.length g.labels.length 0 aln.operations := by
+    rw [hops]
+    exact traceF_seqOK _ q.length g.labels.length (colsOK_of_oinv g.es t.last tb.matrix hOI)
+      (opAtS_y g.es t.last tb.matrix hOI) (opAtS_m_lt g.es t.last g.labels.length tb.matrix hOI hml)
+      _ _ _ [] (by rw [ec, hN]; exact Nat.le_refl _) trivial
+  refine add_alignment_total g aln q ?_ (by omega) hK hw hseq
+  cases htp : topo g.labels.length g.es with
+  | nil => exact absurd htp hG.topo_ne
+  | cons a l => exact ⟨a, rfl, hG.lt a (by rw [htp]; exact List.mem_cons_self ..)⟩
 
 /-- one step of a history: scoring, the four clip penalties (`global`: all `MIN_SCORE`; `semiglobal`: y clips 0; `local`: all 0;
 `custom`: as configured), query -/
